@@ -109,6 +109,18 @@ pub fn replay(w: &Value) -> Option<bool> {
             });
             Some(r.is_ok())
         }
+        "content-blocking-total" => {
+            // converting the rule set must not panic
+            let rules = strs(&w["rules"]);
+            let r = crate::util::guarded(move || {
+                let mut fs = adblock::lists::FilterSet::new(true);
+                for l in &rules {
+                    let _ = fs.add_filter(l, Default::default());
+                }
+                fs.into_content_blocking().is_ok()
+            });
+            Some(matches!(r, Ok(true)))
+        }
         "deserialize-bytes" => {
             let hexs = g("bytes_hex");
             let bytes: Vec<u8> = (0..hexs.len() / 2).filter_map(|i| u8::from_str_radix(&hexs[2 * i..2 * i + 2], 16).ok()).collect();
